@@ -1,5 +1,5 @@
 (* C17 - verdicts do not depend on the order of SAN entries or of extensions.  Statements only (proofs: Kernels/Order.v). *)
-From ZL Require Import Base.Bytes Kernels.Order Kernels.Names Kernels.NamesFacts Kernels.GeneralNames Kernels.GeneralNamesFacts Kernels.CnSan Kernels.SubjLen Kernels.Arpa.
+From ZL Require Import Base.Bytes Kernels.Order Kernels.Names Kernels.NamesFacts Kernels.GeneralNames Kernels.GeneralNamesFacts Kernels.CnSan Kernels.SubjLen Kernels.Arpa Kernels.Tor Kernels.TorFacts Kernels.Der Kernels.DerFacts Kernels.Urls Kernels.UrlsFacts Kernels.SubjPresence.
 From Coq Require Import Sorting.Permutation ZArith List.
 Open Scope Z_scope.
 
@@ -78,6 +78,41 @@ Theorem c17_arpa_lints_perm : forall tbl cn names names', Permutation names name
   l_malformed cn names = l_malformed cn names' /\ l_reserved tbl cn names = l_reserved tbl cn names'.
 Proof. exact arpa_lints_perm. Qed.
 
+(* e_ext_tor_service_descriptor_hash_invalid (Kernels/Tor.v: two loops with early returns over two Go maps): its status
+   is one order-free conjunction (c17_tor_spec), hence the same for every order of the names and of the descriptors *)
+Theorem c17_tor_spec : forall v, l_tor v = if tor_ok v then 3 else 6.
+Proof. exact tor_spec. Qed.
+
+Theorem c17_tor_perm : forall v names' descs',
+  Permutation (t_names v) names' -> Permutation (t_descs v) descs' ->
+  l_tor (mkTor (t_has_ext v) (t_ev v) names' descs') = l_tor v.
+Proof. exact tor_perm. Qed.
+
+(* e_ext_san_empty_name / e_ext_ian_empty_name (Kernels/Der.v: the walker AND the DER reader under it): on the encoding of
+   any list of general names (low tag numbers, under 64 KiB) the verdict is Error iff some name is empty, so it is the
+   same for every order of the names - in particular a directoryName before an empty name changes nothing *)
+Theorem c17_empty_name_spec : forall items,
+  Forall encodable items -> (N.of_nat (length (List.concat (map enc_tlv items))) < 65536)%N ->
+  l_empty_name (san_value items) = if existsb is_empty items then 6 else 3.
+Proof. exact empty_name_spec. Qed.
+
+Theorem c17_empty_name_perm : forall items items',
+  Permutation items items' -> Forall encodable items -> (N.of_nat (length (List.concat (map enc_tlv items))) < 65536)%N ->
+  l_empty_name (san_value items') = l_empty_name (san_value items).
+Proof. exact empty_name_perm. Qed.
+
+(* fifteen lints over the authorityInfoAccess and cRLDistributionPoints URL lists (Kernels/Urls.v): each verdict is the
+   same for every order of each list (the duplicate test for any symmetric case-insensitive comparison) *)
+Theorem c17_url_lints_perm : forall fold_eq, (forall a b, fold_eq a b = fold_eq b a) -> forall v o i c,
+  Permutation (uv_ocsp v) o -> Permutation (uv_issuers v) i -> Permutation (uv_cdp v) c ->
+  all_url_lints fold_eq (reorder v o i c) = all_url_lints fold_eq v.
+Proof. exact url_lints_perm. Qed.
+
+(* twenty-three subject-attribute presence lints (Kernels/SubjPresence.v): the order of the subject's attributes is
+   immaterial to each *)
+Theorem c17_presence_lints_perm : forall v ts, Permutation (s_types v) ts -> all_presence_lints (with_types v ts) = all_presence_lints v.
+Proof. exact presence_lints_perm. Qed.
+
 Print Assumptions c17_first_offender_perm.
 Print Assumptions c17_label_lints_perm.
 Print Assumptions c17_na_first_refuted.
@@ -99,3 +134,9 @@ Print Assumptions c17_cn_exact_spec.
 Print Assumptions c17_subject_length_lints_perm.
 Print Assumptions c17_subject_length_spec.
 Print Assumptions c17_arpa_lints_perm.
+Print Assumptions c17_tor_spec.
+Print Assumptions c17_tor_perm.
+Print Assumptions c17_empty_name_spec.
+Print Assumptions c17_empty_name_perm.
+Print Assumptions c17_url_lints_perm.
+Print Assumptions c17_presence_lints_perm.
